@@ -17,7 +17,15 @@ import (
 
 type Rand struct{ s uint64 }
 
-func NewRand(seed uint64) *Rand { return &Rand{s: seed*0x9E3779B97F4A7C15 + 0x1234567} }
+// NewRand derives the start state from the seed through the output function, not linearly: with a linear start
+// state (seed*gamma + c) consecutive seeds walked the SAME splitmix orbit one step apart, so seeds 1, 2, 3 produced
+// nearly the same cases shifted by one.
+func NewRand(seed uint64) *Rand {
+	z := seed*0xD6E8FEB86659FD93 + 0x1234567
+	z = (z ^ (z >> 30)) * 0xBF58476D1CE4E5B9
+	z = (z ^ (z >> 27)) * 0x94D049BB133111EB
+	return &Rand{s: z ^ (z >> 31)}
+}
 
 func (r *Rand) U64() uint64 {
 	r.s += 0x9E3779B97F4A7C15
